@@ -119,6 +119,11 @@ def derive_ops():
         if c is None:
             continue
         nparams = len(tree.args.args) - 1
+        sel = c.args[0]
+        # operators whose per-element behaviour cannot come from the generic builtin dispatch: the selector
+        # is a plain Python operator function, or UGen overrides the method
+        special = (isinstance(sel, ast.Attribute) and isinstance(sel.value, ast.Name) and sel.value.id == 'operator') \
+            or name in vars(ugn.UGen)
         if name.startswith('__'):
             if name in DUNDER:
                 (unops if nparams == 0 else binops).append({'kind': 'expr', 'expr': DUNDER[name], 'src': name})
@@ -127,9 +132,9 @@ def derive_ops():
                 e = DUNDER['__' + name[3:]].replace('a', 'X').replace('b', 'a').replace('X', 'b')
                 binops.append({'kind': 'expr', 'expr': e, 'src': name})
         elif c.func.attr == '_compose_unop' and nparams == 0:
-            unops.append({'kind': 'expr', 'expr': 'a.%s()' % name, 'src': name})
+            unops.append({'kind': 'expr', 'expr': 'a.%s()' % name, 'src': name, 'special': special})
         elif c.func.attr == '_compose_binop' and nparams == 1 and len(c.args) == 2 and isinstance(c.args[1], ast.Name):
-            binops.append({'kind': 'expr', 'expr': 'a.%s(b)' % name, 'src': name})
+            binops.append({'kind': 'expr', 'expr': 'a.%s(b)' % name, 'src': name, 'special': special})
     return unops, binops
 
 
